@@ -7,12 +7,17 @@ import c06 as C6
 import gen_json as G
 
 
+import threading
+SPAWN_LOCK = threading.Lock()      # fork/exec one child at a time: no other child may inherit a pipe end while it is being set up
+
+
 def spawn(binary, argv, data, mode):
     """mode: normal | closed (our end of stdout is closed before any input is written) | full (stdout is /dev/full).
     Returns (exit code, stdout bytes, stderr bytes)."""
     if mode == "full":
         out = open("/dev/full", "wb")
-        p = subprocess.Popen([binary] + argv, stdin=subprocess.PIPE, stdout=out, stderr=subprocess.PIPE)
+        with SPAWN_LOCK:
+            p = subprocess.Popen([binary] + argv, stdin=subprocess.PIPE, stdout=out, stderr=subprocess.PIPE)
         try:
             _, err = p.communicate(data, timeout=60)
         except subprocess.TimeoutExpired:
@@ -24,7 +29,8 @@ def spawn(binary, argv, data, mode):
         # reading standard input fails (EISDIR): an input failure the executable must report
         fd = os.open("/tmp", os.O_RDONLY)
         try:
-            p = subprocess.Popen([binary] + argv, stdin=fd, stdout=subprocess.PIPE, stderr=subprocess.PIPE)
+            with SPAWN_LOCK:
+                p = subprocess.Popen([binary] + argv, stdin=fd, stdout=subprocess.PIPE, stderr=subprocess.PIPE)
             out, err = p.communicate(timeout=60)
         except subprocess.TimeoutExpired:
             p.kill()
@@ -32,9 +38,14 @@ def spawn(binary, argv, data, mode):
         finally:
             os.close(fd)
         return p.returncode, out, err
-    p = subprocess.Popen([binary] + argv, stdin=subprocess.PIPE, stdout=subprocess.PIPE, stderr=subprocess.PIPE)
     if mode == "closed":
-        p.stdout.close()
+        # a pipe whose read end is closed before the child exists: every write fails with EPIPE (no window in which some other
+        # process forked by this harness could still hold the read end)
+        with SPAWN_LOCK:
+            rfd, wfd = os.pipe()
+            os.close(rfd)
+            p = subprocess.Popen([binary] + argv, stdin=subprocess.PIPE, stdout=wfd, stderr=subprocess.PIPE)
+            os.close(wfd)
         try:
             p.stdin.write(data)
             p.stdin.close()
@@ -47,6 +58,8 @@ def spawn(binary, argv, data, mode):
             p.kill()
             return -999, b"", b"timeout"
         return p.returncode, b"", err
+    with SPAWN_LOCK:
+        p = subprocess.Popen([binary] + argv, stdin=subprocess.PIPE, stdout=subprocess.PIPE, stderr=subprocess.PIPE)
     try:
         out, err = p.communicate(data, timeout=60)
     except subprocess.TimeoutExpired:
